@@ -1,0 +1,22 @@
+//go:build verif
+
+package smtext
+
+// Machine-checked contracts for /verif/govc (contract-based deductive
+// verification). Comments only; this file compiles to nothing and is only
+// read with the build tag "verif".
+
+//@ func extractSingleChar
+//@   props C20 C11
+//@   ensures len(s) != 1 <==> result.1 != nil
+//@   ensures result.1 == nil || localErr(result.1)
+//@   ensures len(s) == 1 && s[0] == '*' ==> result.0 == 255
+//@   ensures len(s) == 1 && s[0] != '*' ==> result.0 == s[0]
+
+// ReadNCBI: never a partial matrix; no panic for arbitrary input (C11).
+//@ func ReadNCBI
+//@   props C20 C11
+//@   thin
+//@   ensures result.1 != nil ==> isnil(result.0)
+//@   loop 1
+//@     invariant true
